@@ -237,6 +237,9 @@ func Load(repo, verif string, prop string) (*Loaded, error) {
 						continue
 					}
 					kv := parseKV(strings.Fields(t)[1:])
+					if kv["prop"] != "" && kv["prop"] != prop {
+						continue // a file shared between properties (symlink): only this property's harnesses
+					}
 					h := &Harness{Prop: kv["prop"], Name: kv["name"], Tiers: map[string]bool{}, Opts: kv,
 						Unwind: atoiDef(kv["unwind"], 16), Threads: atoiDef(kv["threads"], 1), Preempt: atoiDef(kv["preempt"], 2),
 						Depth: atoiDef(kv["depth"], 400), Solver: kv["solver"], File: real[fname], PkgPath: ip.PkgPath,
